@@ -296,18 +296,77 @@ def ackermannize(terms):
     return out, len(consts)
 
 
-def prove_nra(assertions, negated_claim, timeout_ms=120000):
+def prove_nra(assertions, negated_claim, timeout_ms=120000, max_cases=1024):
     """second opinion for a non-linear obligation: uninterpreted applications abstracted to constants, then z3's complete
-    procedure for non-linear real arithmetic (nlsat).  Returns 'unsat' (the obligation holds) or 'unknown'."""
-    terms, n = ackermannize(list(assertions) + [negated_claim])
-    if any(_has_int(t) for t in terms):
-        return "unknown"              # symbolic characters (integers) in the problem: not a pure real problem, leave it to the combined procedure
+    procedure for non-linear real arithmetic (nlsat).  Returns 'unsat' (the obligation holds) or 'unknown'.
+    Integer constants (symbolic characters) are eliminated by a case split over every assignment that satisfies the purely
+    integer assertions (their range constraints); each case is a pure real problem and all of them must be unsat."""
+    terms_in = list(assertions) + [negated_claim]
+    if not any(_has_int(t) for t in terms_in):
+        return _nlsat_unsat(terms_in, timeout_ms)
+    ints = _int_consts(terms_in)
+    if not ints:
+        return "unknown"
+    pure = [t for t in terms_in[:-1] if not _has_real(t)]
+    s = z3.Solver()
+    s.set("timeout", 20000)
+    for t in pure:
+        s.add(t)
+    cases = []
+    while True:
+        r = s.check()
+        if r == z3.unsat:
+            break
+        if r != z3.sat or len(cases) >= max_cases:
+            return "unknown"          # unbounded / too large an integer space: leave it to the combined procedure
+        m = s.model()
+        vals = [(v, m.eval(v, model_completion=True)) for v in ints]
+        cases.append(vals)
+        s.add(z3.Or(*[v != c for v, c in vals]))
+    t_end = time.time() + timeout_ms / 1000.0
+    for vals in cases:
+        sub = [z3.simplify(z3.substitute(t, *vals)) for t in terms_in]
+        if any(z3.is_false(t) for t in sub):
+            continue
+        if any(_has_int(t) for t in sub):
+            return "unknown"
+        left = int((t_end - time.time()) * 1000)
+        if left <= 0 or _nlsat_unsat(sub, left) != "unsat":
+            return "unknown"
+    return "unsat"
+
+
+def _nlsat_unsat(terms_in, timeout_ms):
+    terms, n = ackermannize(terms_in)
     s = z3.Tactic("qfnra-nlsat").solver()
-    s.set("timeout", timeout_ms)
+    s.set("timeout", max(1, int(timeout_ms)))
     for t in terms:
         s.add(t)
     r = s.check()
     return "unsat" if r == z3.unsat else "unknown"
+
+
+def _walk(ts):
+    seen, todo = set(), list(ts)
+    while todo:
+        u = todo.pop()
+        if u.get_id() in seen:
+            continue
+        seen.add(u.get_id())
+        yield u
+        todo.extend(u.children())
+
+
+def _int_consts(ts):
+    out = {}
+    for u in _walk(ts):
+        if z3.is_const(u) and z3.is_int(u) and u.decl().kind() == z3.Z3_OP_UNINTERPRETED:
+            out[u.get_id()] = u
+    return list(out.values())
+
+
+def _has_real(t):
+    return any(z3.is_real(u) for u in _walk([t]))
 
 
 def _has_int(t):
